@@ -212,28 +212,55 @@ def run(report, p):
         raise AnalysisError("append_multiple_format_directory_hashes not found")
     ga = cfg_of(ad)
     r7.instance(ad, ad.node, "copy-up")
-    ups = [n for n in walk_no_nested(ad.node) if isinstance(n, ast.Assign) and isinstance(n.value, ast.Call) and norm(n.value.func).endswith("find_or_create_media_hash_for_path") and "parent" in norm(n.targets[0])]
-    oku = len(ups) == 1
-    if oku:
-        deps = sorted((norm(t.ast), l) for t, l in ga.control_deps(ga.node_for(ups[0])) if t.kind == "test")
-        oku = len(deps) == 2 and any("root_media_hash is media_hash" in d and l == "T" for d, l in deps) and any(d.endswith("parent_history") and l == "T" for d, l in deps)
-        r7.check(oku, ad, ups[0], f"the child's root hash is copied to the parent under {deps}; expected: this record is the list's root hash and the history has a parent", construct=f"copy-up guard {deps}")
-        ko = pr.origins(ups[0].value.args[0], ad)
-        r7.check(all(is_call(o, "get_relative_file_path") and o[5] is not None and any(s[0] == "attr" and s[2] == "parent_history" for s in subterms(o[5])) and o[2][0][0] == "param" for o in ko), ad, ups[0], "the parent's entry is not keyed by the folder's path relative to the parent history", construct="copy-up key")
-        # the loop copying every format (inline or through a helper shared with the record's own entries)
-        from . import c07
+    from . import c07
 
+    def find_ups(f):
+        return [n for n in walk_no_nested(f.node) if isinstance(n, ast.Assign) and isinstance(n.value, ast.Call) and norm(n.value.func).endswith("find_or_create_media_hash_for_path") and any(o[5] is not None and any(s2[0] == "attr" and s2[2] == "parent_history" for s2 in subterms(o[5])) for o in pr.origins(n.value, f) if o[0] == "call")]
+
+    site, gs = ad, ga
+    prefix = []  # guards of the helper call inside `ad` when the copy-up block lives in a helper
+    cpar, spar = ad.params[3], ad.params[4]
+    ups = find_ups(ad)
+    per_format_call = None
+    if not ups:
+        cands = []
+        for call, tg in p.calls[ad.qual]:
+            for t in tg:
+                h = p.funcs.get(t)
+                if h is not None and h is not ad and h.cls is ad.cls and find_ups(h):
+                    cands.append((call, h))
+        if len(cands) == 1:
+            call, h = cands[0]
+            cd = ga.control_deps(ga.node_for(call))
+            prefix = [(norm(t.ast), l) for t, l in cd if t.kind == "test"]
+            if any(t.kind == "loop" for t, l in cd):
+                per_format_call = call
+            b = {k: norm(v) for k, v in p.bind_args(h, call).items() if v is not None}
+            cpar = next((k for k, v in b.items() if v == ad.params[3]), None)
+            spar = next((k for k, v in b.items() if v == ad.params[4]), None)
+            site, gs = h, cfg_of(h)
+            ups = find_ups(h)
+    oku = len(ups) == 1
+    if per_format_call is not None:
+        r7.check(False, ad, per_format_call, "the copy of the child's root record to the parent happens inside a loop over the formats: without directory hashes (create -n) the loop body never runs and the parent gets no directory entry for the nested root", construct="copy-up once per format")
+    elif oku:
+        deps = sorted(set(prefix + [(norm(t.ast), l) for t, l in gs.control_deps(gs.node_for(ups[0])) if t.kind == "test"]))
+        oku = len(deps) == 2 and any("root_media_hash is media_hash" in d and l == "T" for d, l in deps) and any(d.endswith("parent_history") and l == "T" for d, l in deps)
+        r7.check(oku, site, ups[0], f"the child's root hash is copied to the parent under {deps}; expected: this record is the list's root hash and the history has a parent", construct=f"copy-up guard {deps}")
+        ko = pr.origins(ups[0].value.args[0], site)
+        r7.check(all(is_call(o, "get_relative_file_path") and o[5] is not None and any(s[0] == "attr" and s[2] == "parent_history" for s in subterms(o[5])) and o[2][0][0] == "param" for o in ko), site, ups[0], "the parent's entry is not keyed by the folder's path relative to the parent history", construct="copy-up key")
+        # the loop copying every format (inline or through a helper shared with the record's own entries)
         up_name = norm(ups[0].targets[0])
-        pl = [(hf, lp, cn, sn) for hf, lp, cn, sn, recv in c07.directory_recording_loops(p, ad) if recv == up_name]
+        pl = [(hf, lp, cn, sn) for hf, lp, cn, sn, recv in c07.directory_recording_loops(p, site, cpar, spar) if recv == up_name] if cpar and spar else []
         okl = len(pl) == 1 and is_plain_iter(p, pl[0][1].iter) and c07.recording_loop_ok(p, pr, *pl[0])
-        if okl and pl[0][0] is ad:
+        if okl and pl[0][0] is site:
             okl = not [x for x in ast.walk(pl[0][1]) if isinstance(x, ast.If)]
-        if okl and pl[0][0] is not ad:
+        if okl and pl[0][0] is not site:
             # the helper call itself sits under the copy-up guard only (plus the `if <content mapping>:` emptiness test)
-            hc = [c for c, tg in p.calls[ad.qual] if pl[0][0].qual in tg and c.args and norm(c.args[0]) == up_name]
-            okl = len(hc) == 1 and all(norm(t.ast) == ad.params[3] and l == "T" for t, l in ga.control_deps(ga.node_for(hc[0]), transitive=False) if t.kind == "test" and not any(norm(t.ast) == d for d, _ in deps))
+            hc = [c for c, tg in p.calls[site.qual] if pl[0][0].qual in tg and c.args and norm(c.args[0]) == up_name]
+            okl = len(hc) == 1 and all(norm(t.ast) == cpar and l == "T" for t, l in gs.control_deps(gs.node_for(hc[0]), transitive=False) if t.kind == "test" and not any(norm(t.ast) == d for d, _ in deps))
         pl = [x[1] for x in pl]
-        r7.check(okl, ad, pl[0] if pl else ad.node, "not every format's (content, structure) pair of the child root is copied to the parent entry", construct="copy-up loop")
+        r7.check(okl, site, pl[0] if pl else site.node, "not every format's (content, structure) pair of the child root is copied to the parent entry", construct="copy-up loop")
     else:
         r7.check(False, ad, ad.node, "the child's root hash is not copied one history level up", construct="copy-up missing")
 
